@@ -12,7 +12,7 @@ import (
 func init() {
 	register(&Check{
 		ID: "C17", Level: "exploration", QuickSecs: 150, ThoroughSecs: 1200,
-		Rule:        "grammars over {., [^a], [a\\uFFFD], \"\\uFFFD\", 'a', \"é\"} x {*, !, ?} x seq/choice up to N nodes (quick 4, thorough 5); ALL inputs up to length L (quick 3, thorough 4) over the bytes {a, C3, A9, E2, 82, FF, C0, ED, A0, 80} (valid 2-byte sequence, truncated 3-byte sequence, overlong lead, surrogate lead, stray continuation); AllowInvalidUTF8 on/off; plus a literal join family (every ordered pair of 10 literals holding whole or partial multi-byte sequences, adjacent or separated by an inlined rule, generated with -optimize-grammar, AllowInvalidUTF8, inputs over 7 bytes up to 4: match and matched bytes against the bytewise reference); plus left-recursive rules E <- E tail / 'a' followed by .* (generated with -support-left-recursion, with and without -optimize-parser) where the invalid byte is first met inside a discarded growth iteration. An independent RFC 3629 decoder gives (rune,width) per offset; the reference matches over those and logs every offset advanced onto. Checked: value/text are the original bytes and offsets count bytes (exact value comparison), with the option off the set of positions carrying an 'invalid encoding' error equals the set of invalid bytes advanced onto, with it on there is none. Non-trivial = the parser advanced onto at least one invalid byte.",
+		Rule:        "grammars over {., [^a], [a\\uFFFD], \"\\uFFFD\", 'a', \"é\"} x {*, !, ?} x seq/choice up to N nodes (quick 4, thorough 5); ALL inputs up to length L (quick 3, thorough 4) over the bytes {a, C3, A9, E2, 82, FF, C0, ED, A0, 80} (valid 2-byte sequence, truncated 3-byte sequence, overlong lead, surrogate lead, stray continuation); AllowInvalidUTF8 on/off; plus a literal join family (every ordered pair of 10 literals holding whole or partial multi-byte sequences, adjacent or separated by an inlined rule, generated with -optimize-grammar, AllowInvalidUTF8, inputs over 7 bytes up to 4: match and matched bytes against the bytewise reference); plus left-recursive rules E <- E tail / 'a' followed by .* (generated with -support-left-recursion, with and without -optimize-parser) where the invalid byte is first met inside a discarded growth iteration. An independent RFC 3629 decoder gives (rune,width) per offset; the reference matches over those and logs every offset advanced onto. Checked: value/text are the original bytes and offsets count bytes (exact value comparison), with the option off the set of positions carrying an 'invalid encoding' error equals the set of invalid bytes advanced onto, with it on there is none. Non-trivial = the parser advanced onto at least one invalid byte. Plus the cross family (cross.go, 16 flag sets, 14 inputs with invalid bytes) and call histories (every ordered pair of calls over 5 inputs x {default, AllowInvalidUTF8, the option given twice, the option preceded by its opposite, ParseReader}: the second call returns what it returns alone).",
 		Assumptions: []string{"E1 loader", "own RFC 3629 decoder in engine/peg"},
 		Run:         runC17,
 	})
